@@ -331,6 +331,7 @@ def handle (j : Json) : Json :=
       let r := pruneT L T strict t
       Json.mkObj [("tree", match r.1 with | some t' => treeJson t' | none => Json.null),
                   ("pruned", .arr ((prunedList L T strict t).map (fun x => Json.arr #[.str x.1, .str (reasonStr x.2)])).toArray),
+                  ("removed", .arr ((removedT L T strict t).map (fun x => Json.arr #[.str x.1.id, .str (reasonStr x.2), treeJson x.1])).toArray),
                   ("unspec", .bool (unspecTree T t))]
   | some "expand" =>
       match expandT (fun k => "uid" ++ toString k) (getTree (fld j "tree")) 0 with
